@@ -8,6 +8,7 @@ package types_test
 
 import (
 	"bytes"
+	"crypto/sha256"
 	"fmt"
 	"math/big"
 	"sort"
@@ -31,7 +32,7 @@ const (
 )
 
 type c23case struct {
-	Keys    []string `json:"keys,omitempty"` // e.g. "p0","s1","e2","k3","q4"
+	Keys    []string `json:"keys,omitempty"` // e.g. "p0","s1","e2","k3","q4","a5","b6","c7" (see c23kindName)
 	M       int      `json:"m,omitempty"`
 	Script  string   `json:"script,omitempty"`
 	Comment string   `json:"comment,omitempty"`
@@ -52,10 +53,42 @@ func c23key(sym string) keypair.PublicKey {
 		_, pk = vkeys.Eth(i)
 	case 'q':
 		_, pk = vkeys.P224(i)
+	case 'a':
+		pk = c23ecdsaKey(sym[0], i, keypair.P384)
+	case 'b':
+		pk = c23ecdsaKey(sym[0], i, keypair.P521)
+	case 'c':
+		pk = c23ecdsaKey(sym[0], i, keypair.SECP256K1)
 	default:
 		panic("bad key symbol " + sym)
 	}
 	return pk
+}
+
+// c23kinds: every kind of public key keypair.SerializePublicKey / DeserializePublicKey know (key type x curve label),
+// in the documented sort order: ECDSA over P-224, P-256, P-384, P-521, secp256k1; SM2; Ed25519; Ethereum (secp256k1).
+const c23kinds = "qpabcsek"
+
+var c23kindName = map[byte]string{'q': "ECDSA/P-224", 'p': "ECDSA/P-256", 'a': "ECDSA/P-384", 'b': "ECDSA/P-521", 'c': "ECDSA/secp256k1",
+	's': "SM2", 'e': "Ed25519", 'k': "Ethereum/secp256k1"}
+
+// c23ecdsaKey: the i-th deterministic ECDSA key on the curve with the given keypair label (full-width private scalar
+// derived by hashing, reduced into [1, N-1]); for the curves verifshim/vkeys has no helper for.
+func c23ecdsaKey(tag byte, i int, label byte) keypair.PublicKey {
+	c, err := keypair.GetCurve(label)
+	if err != nil {
+		panic(err)
+	}
+	var wide []byte
+	for blk := 0; len(wide)*8 < c.Params().BitSize+64; blk++ {
+		h := sha256.Sum256([]byte(fmt.Sprintf("verif-C23-key/%c/%d/%d", tag, i, blk)))
+		wide = append(wide, h[:]...)
+	}
+	d := new(big.Int).SetBytes(wide)
+	d.Mod(d, new(big.Int).Sub(c.Params().N, big.NewInt(1)))
+	d.Add(d, big.NewInt(1))
+	p := ec.ConstructPrivateKey(d.Bytes(), c)
+	return &ec.PublicKey{Algorithm: ec.ECDSA, PublicKey: &p.PublicKey}
 }
 
 var c23keyCache = map[string]keypair.PublicKey{}
@@ -205,7 +238,7 @@ func c23typesOf(syms []string) string {
 		set[s[0]] = true
 	}
 	var t []string
-	for _, c := range []byte("pseqk") {
+	for _, c := range []byte("pseqkabc") {
 		if set[c] {
 			t = append(t, string(c))
 		}
@@ -310,7 +343,7 @@ func c23multi(r *vh.Run, syms []string, m int, ag *c23agree, parse bool) {
 		if parse {
 			info, perr := program.GetProgramInfo(prog)
 			if perr != nil {
-				r.Violationf("multi:parse-error:"+shape, cs, "GetProgramInfo(ProgramFromMultiPubKey(%v, %d)) failed: %v", syms, m, perr)
+				r.Violationf("multi:parse-error:"+shape+":"+c23culprit(syms), cs, "GetProgramInfo(ProgramFromMultiPubKey(%v, %d)) failed: %v", syms, m, perr)
 				return
 			}
 			if int(info.M) != m {
@@ -330,11 +363,89 @@ func c23multi(r *vh.Run, syms []string, m int, ag *c23agree, parse bool) {
 				return
 			}
 			r.Class("multi:ok:" + shape + ":types-" + c23typesOf(syms))
+			// coverage: a key of which kind stood among the first m keys of the sorted order / among the other n-m
+			for i, k := range keys {
+				pos := 0
+				for j, o := range keys {
+					if j != i && c23less(c23rankOf(o), c23rankOf(k)) {
+						pos++
+					}
+				}
+				if pos < m {
+					r.Class("cover:kind-" + syms[i][:1] + ":sorted-pos<m")
+				} else {
+					r.Class("cover:kind-" + syms[i][:1] + ":sorted-pos>=m")
+				}
+			}
 		}
 	})
 	if p != "" {
 		r.Violationf("multi:panic:"+shape, cs, "%d-of-%d over %v panicked: %s", m, n, syms, p)
 	}
+}
+
+// c23culprit names the failing case class of a built multi-sig script that does not parse back: the key kinds of the set
+// whose own minimal scripts (single-key, 1-of-2 and 2-of-2 over two keys of that kind) do not parse back either
+// ("keytype-..."); "mixed-only" when every kind of the set is fine on its own.
+var c23kindBroken = map[byte]bool{}
+
+func c23culprit(syms []string) string {
+	var bad []string
+	for _, s := range syms {
+		kind := s[0]
+		broken, known := c23kindBroken[kind]
+		if !known {
+			ks := c23keys([]string{fmt.Sprintf("%c0", kind), fmt.Sprintf("%c1", kind)})
+			want := c23expected(ks)
+			if p := vh.Catch(func() {
+				info, err := program.GetProgramInfo(program.ProgramFromPubKey(ks[0]))
+				broken = err != nil || len(info.PubKeys) != 1 || c23ser(info.PubKeys[0]) != c23ser(ks[0])
+				for m := 1; m <= 2 && !broken; m++ {
+					prog, err := program.ProgramFromMultiPubKey(append([]keypair.PublicKey{}, ks...), m)
+					if err != nil {
+						broken = true
+						break
+					}
+					info, err := program.GetProgramInfo(prog)
+					broken = err != nil || int(info.M) != m || !c23same(c23infoKeys(info), want)
+				}
+			}); p != "" {
+				broken = true
+			}
+			c23kindBroken[kind] = broken
+		}
+		if broken {
+			bad = append(bad, s)
+		}
+	}
+	if len(bad) > 0 {
+		return "keytype-" + c23typesOf(bad)
+	}
+	return "mixed-only"
+}
+
+// c23setID: canonical name of (key set, threshold)
+func c23setID(syms []string, m int) string {
+	ss := append([]string{}, syms...)
+	sort.Strings(ss)
+	return fmt.Sprintf("%s/%d", strings.Join(ss, ","), m)
+}
+
+// c23multisets: every non-decreasing sequence of length n over c23kinds (= every multiset of key kinds of size n)
+func c23multisets(n int, f func(kinds []byte)) {
+	cur := make([]byte, n)
+	var rec func(pos, from int)
+	rec = func(pos, from int) {
+		if pos == n {
+			f(cur)
+			return
+		}
+		for i := from; i < len(c23kinds); i++ {
+			cur[pos] = c23kinds[i]
+			rec(pos+1, i)
+		}
+	}
+	rec(0, 0)
 }
 
 // c23orderings: all permutations for n<=limit, otherwise all rotations of the
@@ -446,12 +557,16 @@ func TestVerif_C23(t *testing.T) {
 	if r.Thorough() {
 		patterns = []string{"p", "s", "e", "k", "q", "pseqk", "kp", "es", "qp"}
 	}
-	r.Rule("single-key scripts of every key type (P-256, SM2, Ed25519, secp256k1/Ethereum, P-224) and m-of-n scripts for every n in 1..17, every m in 0..n+1, key-type patterns " + strings.Join(patterns, "/") +
-		", every permutation of the keys for n<=" + fmt.Sprint(permLimit) + " and all rotations of the sequence and its reverse above: builders must accept exactly 1<=m<=n, 1<n<=16, parse back to threshold and the sorted key set (independent reference order), " +
+	kindN := r.Pick(4, 5)
+	r.Rule("single-key scripts of every key kind the key codec knows (ECDSA over P-224/P-256/P-384/P-521/secp256k1, SM2, Ed25519, Ethereum secp256k1; symbols q p a b c s e k) and m-of-n scripts for every n in 1..17, every m in 0..n+1, key-type patterns " + strings.Join(patterns, "/") +
+		", every permutation of the keys for n<=" + fmt.Sprint(permLimit) + " and all rotations of the sequence and its reverse above; key-kind alphabet: for each of the 8 kinds the all-same-kind set of every size 2..16 with every m in 1..n, and every multiset of kinds of size 2.." + fmt.Sprint(kindN) +
+		" with every m in 1..n in every permutation (so every kind stands at every position of the sorted order, among the first m keys and among the other n-m, for every threshold)" +
+		map[bool]string{false: "", true: ", and every two-kind 16-key set (j keys of one kind, 16-j of another, j=1..15) with every m"}[r.Thorough()] +
+		": builders must accept exactly 1<=m<=n, 1<n<=16, parse back to threshold and the sorted key set (independent reference order), " +
 		"give one script/address for all orderings; hand-encoded scripts with invalid m / n / claimed n are parsed and must be refused; GetProgramInfo on every byte string up to length L and on every single-byte mutation and truncation of valid scripts: " +
 		"error or a result with valid parameters that is a fixed point of build->parse; distinct = (operation, shape, outcome) classes")
 	maxLen := 3
-	r.Bound(fmt.Sprintf("n<=17, all m, permutations for n<=%d; byte strings<=%d", permLimit, maxLen))
+	r.Bound(fmt.Sprintf("n<=17, all m, permutations for n<=%d; 8 key kinds: same-kind sets n<=16, kind multisets n<=%d; byte strings<=%d", permLimit, kindN, maxLen))
 
 	var rc c23case
 	if r.ReplayCase(&rc) && (rc.Script != "" || len(rc.Keys) > 0) {
@@ -477,7 +592,7 @@ func TestVerif_C23(t *testing.T) {
 	mine := func() bool { item++; return r.Mine(item) }
 
 	// (1) single-key scripts
-	for _, kt := range "pseqk" {
+	for _, kt := range c23kinds {
 		for i := 0; i < 4; i++ {
 			if mine() {
 				c23single(r, fmt.Sprintf("%c%d", kt, i))
@@ -486,6 +601,16 @@ func TestVerif_C23(t *testing.T) {
 	}
 	// (2) m-of-n
 	addrs := map[common.Address]string{}
+	noteAddr := func(base []string, m int, ag *c23agree) {
+		if !ag.set {
+			return
+		}
+		id := c23setID(base, m)
+		if prev, dup := addrs[ag.addr]; dup && prev != id {
+			r.Violationf("multi:address-collision", c23case{Keys: base, M: m}, "%s and %s have the same address", prev, id)
+		}
+		addrs[ag.addr] = id
+	}
 	for _, pat := range patterns {
 		for n := 1; n <= c23MaxKeys+1 && !r.Expired(); n++ {
 			base := c23pattern(pat, n)
@@ -503,12 +628,72 @@ func TestVerif_C23(t *testing.T) {
 					c23multi(r, append([]string{}, syms...), m, &ag, first)
 					first = false
 				})
-				if ag.set {
-					id := fmt.Sprintf("%s/%d/%d", pat, n, m)
-					if prev, dup := addrs[ag.addr]; dup {
-						r.Violationf("multi:address-collision", c23case{Keys: base, M: m}, "%s and %s have the same address", prev, id)
+				noteAddr(base, m, &ag)
+			}
+		}
+	}
+	// (2a) the key-kind alphabet: every kind of key the codec can serialise, at every position of the sorted order
+	runSet := func(base []string, m int) {
+		var ag c23agree
+		first := true
+		n := len(base)
+		syms := make([]string, n)
+		c23orderings(n, permLimit, func(p []int) {
+			for i, j := range p {
+				syms[i] = base[j]
+			}
+			c23multi(r, append([]string{}, syms...), m, &ag, first)
+			first = false
+		})
+		noteAddr(base, m, &ag)
+	}
+	for _, kt := range c23kinds {
+		for n := 2; n <= c23MaxKeys && !r.Expired(); n++ {
+			base := c23pattern(string(kt), n)
+			for m := 1; m <= n; m++ {
+				if mine() {
+					runSet(base, m)
+				}
+			}
+		}
+	}
+	for n := 2; n <= kindN; n++ {
+		c23multisets(n, func(kinds []byte) {
+			if r.Expired() {
+				return
+			}
+			base := make([]string, n)
+			for i, k := range kinds {
+				base[i] = fmt.Sprintf("%c%d", k, i)
+			}
+			for m := 1; m <= n; m++ {
+				if mine() {
+					runSet(base, m)
+				}
+			}
+		})
+	}
+	if r.Thorough() {
+		n := c23MaxKeys
+		for _, ka := range c23kinds {
+			for _, kb := range c23kinds {
+				if ka >= kb {
+					continue
+				}
+				for j := 1; j < n && !r.Expired(); j++ {
+					base := make([]string, n)
+					for i := range base {
+						k := ka
+						if i >= j {
+							k = kb
+						}
+						base[i] = fmt.Sprintf("%c%d", k, i)
 					}
-					addrs[ag.addr] = id
+					for m := 1; m <= n; m++ {
+						if mine() {
+							runSet(base, m)
+						}
+					}
 				}
 			}
 		}
@@ -578,10 +763,14 @@ func TestVerif_C23(t *testing.T) {
 	for _, c := range []struct {
 		pat  string
 		n, m int
-	}{{"p", 2, 1}, {"psek", 3, 2}, {"pseqk", 5, 5}, {"kp", 2, 2}, {"psek", 16, 11}} {
+	}{{"p", 2, 1}, {"psek", 3, 2}, {"pseqk", 5, 5}, {"kp", 2, 2}, {"psek", 16, 11}, {"abc", 3, 2}, {"pabcsek", 7, 4}} {
 		prog, err := program.ProgramFromMultiPubKey(c23keys(c23pattern(c.pat, c.n)), c.m)
 		r.Need(err == nil, "corpus script: %v", err)
 		corpus = append(corpus, c23corp{prog, r.Thorough()})
+	}
+	// the other key kinds (wide field elements: square roots cost more), appended so that corpus indices stay
+	for _, kt := range "abc" {
+		corpus = append(corpus, c23corp{program.ProgramFromPubKey(c23keys([]string{fmt.Sprintf("%c0", kt)})[0]), r.Thorough()})
 	}
 	for _, c := range corpus {
 		script := c.script
